@@ -341,13 +341,27 @@ KINDS = {
     "GA": "GA('{l}')", "GN": "GN('{l}')", "CP": "CP('{l}')", "CPlie": "CPlie('{l}')", "CPraise": "CPraise('{l}')", "Lazy": "Lazy('{l}')",
     "DS": "DS('{l}')", "TL": "TL([1, 2])", "TD": "TD(a=1)", "TS": "TS({1})", "TT": "TT((1, 2))", "HB": "HB('{l}')", "MI": "MI('{l}')",
     "MIclass": "MI", "GAcall": "GAcall('{l}')", "GNcall": "GNcall('{l}')", "GNfab": "GNfab('{l}')", "SK": "SK('key')",
+    # an exact, empty collections.defaultdict whose factory is the program's own (stateful) function
+    "DF": "mk('DF', '{l}')",
 }
 HASHABLE = {"SK", "GA", "GN", "CP", "CPlie", "CPraise", "Lazy", "DS", "TT", "HB", "MI", "MIclass", "GAcall", "GNcall", "GNfab"}
 CALLABLE = {"HB", "GAcall", "GNcall", "GNfab", "MIclass"}
 
 
+def _factory(label):
+    def make_default():
+        note("default_factory", label)
+        return COUNTER["n"]
+
+    return make_default
+
+
 def mk(kind, label):
     ARMED.add(kind)
+    if kind == "DF":
+        import collections
+
+        return collections.defaultdict(_factory(label))
     if kind == "MIclass":
         return MI
     if kind in ("TL", "TD", "TS", "TT", "SK"):
